@@ -104,6 +104,13 @@ CHECKS = {
               'span h must satisfy h.heritage[h.start:h.stop] == str(h) and point into a statement of the program. Failing variants are reduced '
               '(ddmin) to the minimal noise and classified against the recorded mechanisms.'),
         note='trusted: token boundaries of the generators; removal of optional spaces is not part of the statement and is not judged'),
+    'C19': dict(
+        category='fault_enumeration', design_ref='DESIGN.md 4/C19',
+        technique='runtime fault injection: a fixed catalogue of corruption operators applied to generated valid programs; the outcome of the real compile path is classified (diagnostic / SQL / internal error) and the diagnostic text is checked for the offending item',
+        text=('Each of 20 corruption operators is applied once to every generated valid program (whose affected predicate is first confirmed to '
+              'compile); compilation of the affected predicate must raise one of the four diagnostic exception types that logica.py catches, the '
+              'message or its context must name the offending variable / predicate, and no SQL may be produced.'),
+        note='trusted: each operator makes the program certainly invalid (fresh names, predicates defined after the functor); @Ground of missing predicates and undefined body predicates are valid by design'),
     'C16': dict(
         category='exploration', design_ref='DESIGN.md 4/C16',
         technique='runtime monitor: reference-model oracle (term meet) over every observed Unify, exhaustive pair enumeration',
